@@ -66,6 +66,12 @@ Pub ==
   /\ sphase = "joined" /\ UNCHANGED <<wvars, sphase, proto, origins>>
   /\ sobs' = [NoSObs EXCEPT !.reply = "PUBLISHED", !.frame = IF proto = "" THEN "" ELSE FrameOf(proto)]
 
+\* wamp.session.get for the session itself: answered - and whatever the HTTP upgrade left in the
+\* transport details for authenticators only (tracking cookies, the captured request) is not in it
+SGet ==
+  /\ sphase = "joined" /\ UNCHANGED <<wvars, sphase, proto, origins>>
+  /\ sobs' = [NoSObs EXCEPT !.reply = "RESULT", !.frame = IF proto = "" THEN "" ELSE FrameOf(proto)]
+
 \* the rawsocket listener: the handshake of Wire, then the same session life
 RsHandshake(magicOK, lenNibble, serNibble, reservedZero) ==
   /\ sphase = "new" /\ UNCHANGED <<proto, origins>>
@@ -108,7 +114,7 @@ Offers == {<<>>, <<"wamp.2.json">>, <<"wamp.2.cbor", "wamp.2.json">>, <<"wamp.2.
            <<"bogus", "wamp.2.cbor">>, <<"wamp.2.cbor", "wamp.2.msgpack", "wamp.2.json">>}
 MCSNext ==
   \/ \E o \in Offers, g \in {"", "same", "good", "glob", "evil"} : Upgrade(o, g)
-  \/ Hello \/ Pub
+  \/ Hello \/ Pub \/ SGet
   \/ \E m \in BOOLEAN, ln \in {0, 15}, sn \in {0, 1, 2, 3, 4}, rz \in BOOLEAN : RsHandshake(m, ln, sn, rz)
   \/ RsTooBig
   \/ \E k \in {"ws", "rs"}, sc \in {"ws", "http", "tcp", "tcp4", "bogus"}, sr \in {"json", "msgpack", "cbor"} : ClientConnect(k, sc, sr)
@@ -121,7 +127,7 @@ S_Offered   == [][\A o \in Offers, g \in {"", "same", "good", "glob", "evil"} :
 \* a foreign origin gets in only where it was allowed
 S_Origin    == [][\A o \in Offers : Upgrade(o, "evil") /\ origins # "star" => sphase' = "closed" /\ sobs'.status = 403]_svars
 \* JSON is spoken in text frames, the binary serializers in binary frames
-S_FrameType == sobs.reply \in {"WELCOME", "PUBLISHED"} /\ proto # "" => sobs.frame = (IF SerOf(proto) = "json" THEN "text" ELSE "binary")
+S_FrameType == sobs.reply \in {"WELCOME", "PUBLISHED", "RESULT"} /\ proto # "" => sobs.frame = (IF SerOf(proto) = "json" THEN "text" ELSE "binary")
 \* a closed connection stays closed
 S_Closed    == [][sphase = "closed" => sphase' = "closed"]_svars
 =============================================================================
